@@ -7,7 +7,7 @@ T=$(mktemp -d /tmp/rebase_XXXX)
 git -C /repo worktree add -q --detach $T $BASE
 cd $T
 if ! git apply "$P" 2>/dev/null; then echo "does not apply on $BASE: $P"; cd /; git -C /repo worktree remove --force $T; exit 2; fi
-git -c user.email=x@x -c user.name=x commit -qam patch
+git add -A; git -c user.email=x@x -c user.name=x commit -qm patch
 if git -c user.email=x@x -c user.name=x rebase -q $(git -C /repo rev-parse HEAD) 2>/dev/null; then
   git diff $(git -C /repo rev-parse HEAD) HEAD > "$P"; echo "rebased: $P"
 else
